@@ -89,7 +89,13 @@ def run(ctx):
         ctx.touch(ci)
         tiles = _tile_calls(ci.node)
         if not tiles:
-            ctx.unrecognised(r1, ci, "tile", "no width tiling found")
+            # the other idiom: the table is kept as ONE row of shape (1, n), which broadcasts against (batch, n); that every
+            # row evaluates with it is decided by R6, that sampling sizes its draws correctly with it by R7
+            rows1 = [cc for cc in A.calls_in(ci.node) if A.call_attr(cc) == "reshape" and len(cc.args) == 2 and isinstance(cc.args[1], ast.Tuple) and [A.const_value(e) for e in cc.args[1].elts] == [1, -1]]
+            if rows1:
+                ctx.holds(r1, f"{CON}::{cname}.__init__: {A.short(rows1[0], 60)}", "constraint table kept as one broadcasting row (1, n)")
+            else:
+                ctx.unrecognised(r1, ci, "tile", "no width tiling found")
         for t in tiles:
             reps = t.args[1].elts
             pos = [i for i, e in enumerate(reps) if _is_batch(e)]
@@ -151,6 +157,9 @@ def run(ctx):
     _constraint_template(ctx, r6, repo)
     from . import viewers
     viewers.check(ctx, r6)  # the viewers every batched evaluation splits / stitches / gathers through, flat and with batch rows, with in-place refilled buffers
+
+    r7 = ctx.rule("C10.R7", "SAMPLE-SHAPE: the distribution parameters the batched constraint model hands to normal_dist / poisson_dist (captured by interpreting _ConstraintModel.make_pdf with 2 batch rows) and the sampling code of the numpy and jax distribution classes compose: rvs is asked for sample_shape + (batch rows, components) -- whatever shapes the means, widths and rates are kept in, and whichever of them the sampler reads the shape from", "SHAPE", floor=4)
+    _sample_shapes(ctx, r7, repo)
 
     # ------------------------------------------------------------ R2 / R4
     targets = [(c, c.methods["apply"]) for _, (b, c) in sorted(reg.items())]
@@ -301,3 +310,121 @@ def _check_strip(ctx, rid, m, sub):
         ctx.holds(rid, site, "leading row stripped only when batch_size is None")
     else:
         ctx.violated(rid, m, sub, "the leading (batch) row is stripped unconditionally: a batched evaluation returns only row 0", expected="inside `if self.batch_size is None:`", node=sub)
+
+
+def _sample_shapes(ctx, rid, repo):
+    from .. import listnp
+    from ..alg import FragmentFault, NotHandled, Obj, Poly, PyFunc, RaisedInFragment, Undecided, to_poly
+    from ..objmodel import Instance, World
+    from . import viewers
+    from .c02 import PDF, PROB
+    at, c = Poly.atom, Poly.const
+    errs = (Undecided, KeyError, TypeError, ValueError, IndexError, AttributeError)
+    cmc = repo.cls(PDF, "_ConstraintModel")
+
+    def sl(a_, b_):
+        return Obj("slice", {"start": c(a_), "stop": c(b_)})
+
+    # ---- what the batched constraint model hands over
+    handed = {}
+    B = 2
+    try:
+        psets = {
+            "g1": Obj("g1", {"n_parameters": c(2), "pdf_type": "normal", "sigmas": [at("s0"), at("s1")], "auxdata": [at("ng0"), at("ng1")]}, closed=True),
+            "p1": Obj("p1", {"n_parameters": c(2), "pdf_type": "poisson", "factors": [at("f0"), at("f1")], "auxdata": [at("np0"), at("np1")]}, closed=True),
+            "g2": Obj("g2", {"n_parameters": c(1), "pdf_type": "normal", "auxdata": [at("ng2")]}, closed=True),
+        }
+        slices, aux_order = {"mu": (0, 1), "p1": (1, 3), "g1": (3, 5), "g2": (5, 6)}, ["g1", "p1", "g2"]
+
+        def dist(kind):
+            def f(a, k):
+                handed.setdefault(kind, []).append(list(a))
+                return Obj(kind, {"args": list(a)})
+            return f
+
+        w = viewers.world(repo, {"normal_dist": dist("normal_dist"), "poisson_dist": dist("poisson_dist"), "param_set": lambda a, k: psets[a[0]]})
+        w.add_class(cmc)
+        for cn in ("gaussian_constraint_combined", "poisson_constraint_combined"):
+            w.add_class(repo.cls(CON, cn))
+        pattrs = {}
+        for cn in ("_SimpleDistributionMixin", "Poisson", "Normal", "Independent", "Simultaneous"):
+            k_ = repo.cls(PROB, cn)
+            w.add_class(k_)
+            pattrs[cn] = PyFunc(lambda a, kw, k_=k_, w=w: w.new(k_, a, kw), cn)
+        w.module_env["prob"] = Obj("prob", pattrs)
+        for rel_ in (PDF, CON, PROB):
+            w.load_globals(repo.module(rel_))
+        cfg = Obj("config", {"npars": c(6), "par_map": {n: {"slice": sl(*se)} for n, se in slices.items()}, "auxdata": [at(f"nominal_aux{j}") for j in range(5)], "auxdata_order": list(aux_order)})
+        cm = w.new(cmc, [cfg, c(B)], {})
+        pars = listnp.T([[at(f"theta{r}_{j}") for j in range(6)] for r in range(B)])
+        w.call_method(cm, "make_pdf", [pars])
+    except (FragmentFault, RaisedInFragment) as e:
+        ctx.violated(rid, cmc, "_ConstraintModel.make_pdf [batch_size=2]", f"a batched constraint model cannot build its pdf on a well-formed configuration: {e}")
+        return
+    except errs as e:
+        ctx.unrecognised(rid, cmc, "_ConstraintModel.make_pdf [batch_size=2]", f"not interpretable: {type(e).__name__}: {e}")
+        return
+    if not handed.get("normal_dist") or not handed.get("poisson_dist"):
+        ctx.unrecognised(rid, cmc, "_ConstraintModel.make_pdf [batch_size=2]", f"no normal_dist / poisson_dist constructed: {sorted(handed)}")
+        return
+    shapes = {k_: [listnp._shape(x) if isinstance(x, (list, tuple)) else () for x in v[-1]] for k_, v in handed.items()}
+    ctx.extra["constraint_distribution_parameter_shapes"] = {k_: [list(x) for x in v] for k_, v in shapes.items()}
+
+    def bshape(shs):
+        n = max(len(x) for x in shs)
+        out = []
+        for d in range(n):
+            dims = {x[len(x) - n + d] for x in shs if len(x) - n + d >= 0} - {1}
+            if len(dims) > 1:
+                raise FragmentFault(f"shapes {shs} do not broadcast")
+            out.append(dims.pop() if dims else 1)
+        return tuple(out)
+
+    def filled(shape, tag):
+        def rec(d, pre):
+            if d == len(shape):
+                return at(tag + "_".join(map(str, pre)))
+            return [rec(d + 1, pre + (i,)) for i in range(shape[d])]
+        return listnp.wrap(rec(0, ()))
+
+    # ---- the samplers
+    for rel in ("src/pyhf/tensor/numpy_backend.py", "src/pyhf/tensor/jax_backend.py"):
+        for cname, kind, fields in (("_BasicNormal", "normal_dist", ("loc", "scale")), ("_BasicPoisson", "poisson_dist", ("rate",))):
+            k_ = repo.cls(rel, cname)
+            m = k_.methods.get("sample") if k_ else None
+            if m is None:
+                ctx.unrecognised(rid, repo.module(rel), f"{cname}.sample", "not found")
+                continue
+            ctx.touch(m)
+            site = f"{rel}::{cname}.sample [parameters shaped as the batched constraint model hands them: {shapes[kind]}]"
+            try:
+                asked = []
+
+                def frozen(a, k):
+                    return Obj("frozen", {"args": list(a)})
+
+                def rvs(recv, a, k):
+                    if not (isinstance(recv, Obj) and recv.name == "frozen"):
+                        raise NotHandled()
+                    asked.append(k.get("size", a[0] if a else None))
+                    return Obj("draws")
+
+                ext = listnp.externals()
+                ident = lambda a, k: a[0]
+                ext.update({"__strict__": True, "norm": frozen, "poisson": frozen, ".rvs": rvs, "asarray": ident, "array": ident, "astensor": ident})
+                wb = World(ext, module_env={n_: Obj(n_) for n_ in ("np", "jnp", "osp_stats", "jax", "scipy")})
+                wb.add_class(k_)
+                inst = Instance(k_)
+                for f_, sh_ in zip(fields, shapes[kind]):
+                    inst.attrs[f_] = filled(sh_, f_)
+                wb.call_method(inst, "sample", [(c(7),)])
+                want = (7,) + bshape(shapes[kind])
+                got = tuple(int(to_poly(x).const_value()) for x in asked[-1]) if asked and isinstance(asked[-1], (list, tuple)) else None
+                if got == want:
+                    ctx.holds(rid, site, f"rvs(size={got}) = sample_shape + (rows, components)")
+                else:
+                    ctx.violated(rid, m, f"{cname}.sample size", f"pseudo-data drawn from a batched model do not have shape sample_shape + (batch rows, components): the constraint model keeps its distribution parameters in shapes {shapes[kind]} and this sampler sizes the draw from one of them that does not carry every batch row", expected=f"size={want}", found=f"size={got}", node=m.node)
+            except (FragmentFault, RaisedInFragment) as e:
+                ctx.violated(rid, m, f"{cname}.sample", f"sampling fails on the parameters the batched constraint model hands over: {e}", node=m.node)
+            except errs as e:
+                ctx.unrecognised(rid, m, f"{cname}.sample", f"not interpretable: {type(e).__name__}: {e}")
